@@ -271,6 +271,59 @@ impl Op {
         }
     }
 
+    /// first target slot, without allocating
+    pub fn first_target(&self) -> Slot {
+        match *self {
+            Op::Take { slot, .. } => slot,
+            Op::Swap { a, .. } | Op::Compare { a, .. } => a,
+            _ => {
+                // every other variant has exactly one target, which is also what `targets()` returns
+                let mut out = 0;
+                self.for_single_target(&mut out);
+                out
+            }
+        }
+    }
+
+    fn for_single_target(&self, out: &mut Slot) {
+        match *self {
+            Op::New { slot }
+            | Op::Default { slot }
+            | Op::FromText { slot, .. }
+            | Op::FromChar { slot, .. }
+            | Op::FromBool { slot, .. }
+            | Op::FromInt { slot, .. }
+            | Op::FromStatic { slot, .. }
+            | Op::WithCapacity { slot, .. }
+            | Op::FromUtf8Lossy { slot, .. }
+            | Op::FromUtf16 { slot, .. }
+            | Op::Collect { slot, .. }
+            | Op::Display { slot, .. }
+            | Op::Clone { slot, .. }
+            | Op::Drop { slot }
+            | Op::CloneFrom { slot, .. }
+            | Op::OptionRoundTrip { slot }
+            | Op::Add { slot, .. }
+            | Op::Push { slot, .. }
+            | Op::PushStr { slot, .. }
+            | Op::Pop { slot, .. }
+            | Op::Remove { slot, .. }
+            | Op::Insert { slot, .. }
+            | Op::InsertStr { slot, .. }
+            | Op::Truncate { slot, .. }
+            | Op::Clear { slot }
+            | Op::Retain { slot, .. }
+            | Op::Reserve { slot, .. }
+            | Op::ShrinkTo { slot, .. }
+            | Op::ShrinkToFit { slot, .. }
+            | Op::Extend { slot, .. }
+            | Op::AddAssign { slot, .. }
+            | Op::Write { slot, .. } => *out = slot,
+            Op::Take { slot, .. } => *out = slot,
+            Op::Swap { a, .. } | Op::Compare { a, .. } => *out = a,
+        }
+    }
+
     /// the slot the operation mutates in place (None for constructors / pure handle ops)
     pub fn mutated(&self) -> Option<Slot> {
         match *self {
